@@ -490,7 +490,7 @@ def mutate(rng, b, lf, pool):
     return bytes(b)
 
 
-def family(rng, tier, gen, n_valid, n_mut, emit, all16=False):
+def family(rng, tier, gen, n_valid, n_mut, emit, all16=False, nsweep_quick=3):
     """emit(bytes) for: valid messages, every value of every length field, every truncation, mutation stream."""
     pool = []
     msgs = [gen(rng) for _ in range(n_valid)]
@@ -499,7 +499,7 @@ def family(rng, tier, gen, n_valid, n_mut, emit, all16=False):
         emit(b)
     # field sweeps and truncations on the first few (smallest first to keep the volume bounded)
     sweep = sorted(msgs, key=lambda m: len(m[0]))
-    nsweep = 3 if tier == "quick" else 10
+    nsweep = nsweep_quick if tier == "quick" else 10
     step = max(1, len(sweep) // nsweep)
     for b, lf in sweep[::step][:nsweep]:
         for o, w in lf[: (6 if tier == "quick" else 40)]:
@@ -767,15 +767,22 @@ def gen_cases(rng, tier, budget):
 
     # --- DHCPv4 option rewriting and parsing ---------------------------------------------------------------------
     o82 = b"\x52\x0a\x01\x03abc\x02\x03xyz"
+    d4n = [0]
     def d4_emit(b):
-        add(case("o82ins", [rng.randrange(3)], b, rng.choice([o82, b"", b"\x52\x00", o82[:5]])))
-        add(case("o82strip", [], b))
+        d4n[0] += 1
         code = rng.choice([51, 54, 58, 59, 82, 0, 255, 53, rng.randrange(256)])
-        add(case("setopt", [code], b, rb(rng, 4)))
-        add(case("getopt", [code], b))
-        add(case("d4parse", [], b))
-        add(case("d4msg", [], b))
-    family(rng, tier, gen_dhcp4, nv, nm, d4_emit)
+        o82arg = rng.choice([o82, b"", b"\x52\x00", o82[:5]])
+        pol = rng.randrange(3)
+        val = rb(rng, 4)
+        if not q or d4n[0] % 2 == 0:          # quick tier: the two halves of the entry points alternate
+            add(case("o82ins", [pol], b, o82arg))
+            add(case("setopt", [code], b, val))
+            add(case("d4parse", [], b))
+        if not q or d4n[0] % 2 == 1:
+            add(case("o82strip", [], b))
+            add(case("getopt", [code], b))
+            add(case("d4msg", [], b))
+    family(rng, tier, gen_dhcp4, nv, nm // 2 if q else nm, d4_emit, nsweep_quick=1)
     family(rng, tier, lambda r: gen_dhcp4(r, magic=False), 3, 20, d4_emit)
     for n in (0, 1, 27, 28, 235, 236, 237, 239, 240, 241, 242):
         d4_emit(bytes(n))
@@ -783,12 +790,13 @@ def gen_cases(rng, tier, budget):
     base = gen_dhcp4(rng, opts=(b"", []))[0]
     for s in short_strings(tier, False):
         d4_emit(base + s)
-    for a, b2, c in itertools.product([0, 1, 2, 3, 4, 51, 82, 255], repeat=3):
+    for a, b2, c in itertools.product([0, 1, 2, 4, 51, 82, 255] if q else [0, 1, 2, 3, 4, 51, 82, 255], repeat=3):
         d4_emit(base + bytes([a, b2, c]))
-        d4_emit(base + bytes([a, b2, c, 4, 1, 2, 3, 4, 255]))
+        if not q or c in (0, 4):
+            d4_emit(base + bytes([a, b2, c, 4, 1, 2, 3, 4, 255]))
     # several option 82 / several instances of the rewritten option (right and wrong lengths), with and without End
     for combo in itertools.product([b"", b"\x52\x02ab", b"\x52\x00", b"\x33\x04\x00\x00\x0e\x10", b"\x33\x02\x01\x02",
-                                    b"\x33\x06\x01\x02\x03\x04\x05\x06", b"\x00", b"\x35\x01\x05"], repeat=3):
+                                    b"\x33\x06\x01\x02\x03\x04\x05\x06", b"\x00", b"\x35\x01\x05"], repeat=(2 if q else 3)):
         for tail in (b"", b"\xff", b"\xff\x00\x52\x01a", b"\x52", b"\x33\x04\x01"):
             d4_emit(base + b"".join(combo) + tail)
     family(rng, tier, lambda r: tlv8([(r.choice([1, 2, 10, 0, 255]), rb(r, r.randint(0, 12))) for _ in range(r.randint(0, 4))]),
@@ -940,7 +948,7 @@ def gen_cases(rng, tier, budget):
             add(case("bkrakick", [n, k]))
             add(case("bkl2gw", [n, k]))
     # arbitrary arrive (A) / finish (F) histories; the harness reads len(chan) of the real semaphore / queue after every step
-    for _ in range(14 if q else 300):
+    for _ in range(40 if q else 300):
         n = rng.choice([5, 20, 40, 60])
         pa = rng.choice([0.5, 0.7, 0.9, 1.0])
         ev = bytes(0x41 if rng.random() < pa else 0x46 for _ in range(n))
@@ -957,6 +965,13 @@ def gen_cases(rng, tier, budget):
             add(case("fzgopkt", [proto], fr[:k]))
         for _ in range(60 * scale):
             add(case("fzgopkt", [proto], mutate(rng, fr, [(16, 2), (20, 2), (24, 2), (38, 2), (42, 2)], pool)))
+    for n in (300, 700, 1200, 1500):
+        for _ in range(2 * scale):
+            add(case("fzsess", [rng.choice(protos[:6]), rng.choice([1, 2, 3, 4])], ppp_frame(rng.choice([1, 2, 9, 13]), 1, rb(rng, n - 4))[0]))
+            r = bytes([rng.choice([2, 3, 43, 40]), 1]) + be16(n) + rb(rng, 16) + tlv8([(rng.randrange(256), rb(rng, 200)) for _ in range((n - 20) // 202)], 2)[0]
+            add(case("fzrad", [], r))
+            add(case("radparse", [], r))
+            add(case("radparse", [], r[:2] + be16(len(r)) + r[4:]))
     # --- pure random strings up to the MTU on every modelled entry -------------------------------------------
     for e in MODELLED:
         for _ in range(6 * scale):
@@ -1011,7 +1026,7 @@ def classify(case_line, impl, model):
             return "P", ("%s: at step %d of the arrive/finish history the real queue (occupancy, outcome) is %r, the pool model says %r"
                          " (3 = handler call did not return)" % (e, (k - 1) // 2 + 1, " ".join(it[k - (k + 1) % 2:][:2]), " ".join(mt[k - (k + 1) % 2:][:2])))
         if it[1] != mt[1]:
-            return "P", ("%s: receive handler call #%d of a burst of %s well-formed frames did not return within 1.5 s while the "
+            return "P", ("%s: receive handler call #%d of a burst of %s well-formed frames did not return within 3 s while the "
                          "workers were held (handler wedged; session still answers afterwards: %s, pool drained after release: %s)"
                          % (e, int(it[1]) + 1, n, it[3], it[4]))
         if it[3] != "1":
@@ -1019,8 +1034,10 @@ def classify(case_line, impl, model):
         if it[4] != "1":
             return "P", "%s: workers did not drain after the provider answered (burst of %s)" % (e, n)
         return "P", "%s: %s requests dispatched, the bounded pool admits %s" % (e, it[2], mt[2])
+    if impl.startswith("lockleak"):
+        return "P", "%s: a handler returned while still holding a lock (%s)" % (e, impl)
     if impl in ("panic", "hang"):
-        return "P", "%s: the call %s on this input (model: %s)" % (e, "panicked" if impl == "panic" else "did not return within 2 s", model[:120])
+        return "P", "%s: the call %s on this input (model: %s)" % (e, "panicked" if impl == "panic" else "did not return within 5 s", model[:120])
     if impl.startswith("skipped"):
         return "G", "%s: not run, the harness stopped after three hung calls" % e
     if impl == "badline" or model == "badline":
